@@ -122,6 +122,15 @@ impl AsyncClient {
         self.inner.next_id.fetch_add(1, Ordering::Relaxed)
     }
 
+    /// Number of entries in the pending map (verification hook).
+    #[cfg(feature = "verif-hooks")]
+    pub fn verif_pending_len(&self) -> usize {
+        match self.inner.pending.lock() {
+            Ok(g) => g.len(),
+            Err(p) => p.into_inner().len(),
+        }
+    }
+
     pub async fn call_json<P: AsRef<str>, T: Serialize>(
         &self,
         path: P,
